@@ -8,7 +8,8 @@
        Create on the parent) on the same entry. *)
 From stdpp Require Import gmap.
 From Coq Require Import NArith ZArith Lia.
-From P9 Require Import Model.Path Model.Session Model.FidSpec Proofs.SessionProofs Proofs.SessionGhost.
+From P9 Require Import Model.Path Model.Session Model.FidSpec Proofs.SessionProofs Proofs.SessionGhost
+  Proofs.SessionClauses.
 Open Scope N_scope.
 
 Definition call_ent (c : call) : option N :=
@@ -173,3 +174,10 @@ Proof.
   - by apply (G_live _ HG) in Hb as [? _].
   - intros Hr. apply (G_rel_lt _ HG) in Hr. lia.
 Qed.
+
+Lemma calls_ok_reach s o ts : reach s → is_stop o = false → calls_ok s (sstep s o ts).2.
+Proof. intros Hr. apply step_calls; [by apply reach_WF|by apply reach_G]. Qed.
+
+Lemma calls_live_reach s o ts c e :
+  reach s → is_stop o = false → c ∈ (sstep s o ts).2 → call_ent c = Some e → e ∉ rel s.
+Proof. intros Hr. apply step_calls_live; [by apply reach_WF|by apply reach_G]. Qed.
